@@ -27,6 +27,7 @@ EnvC == ndJsonDeserialize(IOEnv.FD_CONSTS)[1]
 Peers == 1..EnvC.peers
 Sizes == {}
 Eps == {}
+Fmts == {}
 Mutant == "none"
 Emit == "none"
 MaxDepth == 0
